@@ -182,7 +182,12 @@ def inject_loop_contracts(body, contracts, nloops):
         if not (1 <= ordn <= nloops):
             raise ExtractionBreak('loop ordinal %d out of range' % ordn)
         kind, pos = loops[ordn - 1]
-        body = body[:pos] + '\n' + contracts[ordn].strip() + '\n' + body[pos:]
+        ctext = contracts[ordn].strip()
+        if '@LOCALS@' in ctext:
+            # the frame of the loop as far as plain local variables are concerned is read from the loop's own text: every
+            # identifier the body (or the header) assigns that is not declared inside the body and is not a member access
+            ctext = ctext.replace('@LOCALS@', ', '.join(loop_assigned_locals(body, kind, pos)) or 'verif_exc')
+        body = body[:pos] + '\n' + ctext + '\n' + body[pos:]
         # cbmc 6.11 silently drops a loop contract attached to `for (;;)`; `while (1)` is the same loop
         head = re.search(r'for\s*\(\s*;\s*;\s*\)\s*$', body[:pos])
         if kind == 'for' and head:
@@ -585,3 +590,57 @@ def slice_carried(body, carried, nondet='nondet_verif_bool()'):
             raise ExtractionBreak('slice: carried variable assigned inside a compound expression / lambda: %s' % ' '.join(st.split())[:80])
         return ''
     return seq(body, False)
+
+
+def loop_assigned_locals(body, kind, pos):
+    """Plain identifiers assigned by the loop whose contract is inserted at `pos` (see find_loops): in its body, and for a
+    `for` loop in its header.  Identifiers declared inside the loop body (block-local temporaries) and member / pointer
+    targets (a.b, a->b, *p, a[i]) are not listed -- the latter must be named by the contract text itself."""
+    m = mask(body)
+    if kind == 'do':
+        # contract goes after the trailing while (...): the body is the block in front of it
+        k = m.rfind('}', 0, pos)
+        depth, j = 0, k
+        while j >= 0:
+            if m[j] == '}':
+                depth += 1
+            elif m[j] == '{':
+                depth -= 1
+                if depth == 0:
+                    break
+            j -= 1
+        span, header = m[j:k + 1], ''
+    else:
+        j = _skip_ws(m, pos)
+        e = match_close(m, j) + 1 if m[j] == '{' else _stmt_end(m, j)
+        span = m[j:e]
+        # header: the parenthesis that ends right before pos
+        q = pos - 1
+        while q >= 0 and m[q] in ' \t\r\n':
+            q -= 1
+        depth, h = 0, q
+        while h >= 0:
+            if m[h] == ')':
+                depth += 1
+            elif m[h] == '(':
+                depth -= 1
+                if depth == 0:
+                    break
+            h -= 1
+        header = m[h:q + 1]
+    TYPES = r'(?:const\s+)?(?:unsigned\s+|signed\s+)?(?:u?int(?:8|16|32|64)_t|size_t|ssize_t|bool|char|int|long|double|float|auto|uint8_t)\s*[*&]?\s*'
+    declared = set(re.findall(r'\b' + TYPES + r'([A-Za-z_]\w*)\s*(?:=|;|\[)', span))
+    found = []
+    for text in (header, span):
+        for mo in re.finditer(r'(?<![\w.>\]\)*])([A-Za-z_]\w*)\s*(?:(?:[-+*/%&|^]|<<|>>)?=(?!=)|\+\+|--)', text):
+            found.append(mo.group(1))
+        for mo in re.finditer(r'(?:\+\+|--)\s*([A-Za-z_]\w*)\b(?!\s*(?:\.|->|\[))', text):
+            found.append(mo.group(1))
+    hdr_decl = set(re.findall(r'\b' + TYPES + r'([A-Za-z_]\w*)\s*=', header))
+    out = []
+    for n in found:
+        if n in declared and n not in hdr_decl:
+            continue
+        if n not in out:
+            out.append(n)
+    return out
